@@ -344,6 +344,7 @@ def run_asyncio(case):
             obs.closed_at = tr.closed_at
             obs.eof_at = tr.eof_at
             obs.transport_closing = tr.is_closing()
+            obs.parser_buffered = _parser_buffered(server)
             left = [t for t in asyncio.all_tasks(loop) if t not in base_tasks and t is not asyncio.current_task()]
             obs.tasks_left = len([t for t in left if not t.done()])
             obs.tasks_left_names = [repr(t.get_coro())[:120] for t in left if not t.done()][:8]
@@ -607,6 +608,7 @@ def run_trio(case):
                 obs.closed_at = inner.closed_at
                 obs.eof_at = inner.eof_at
                 obs.transport_closing = inner._closed
+                obs.parser_buffered = _parser_buffered(server)
                 obs.handler = done.get("r", "pending")
                 living = trio.lowlevel.current_statistics().tasks_living
                 obs.tasks_left = living - base - (0 if "r" in done else 1)
@@ -670,6 +672,16 @@ def run_trio(case):
 def _alarm(signum, frame):
     raise CaseTimeout()
 
+
+
+def _parser_buffered(server):
+    """Bytes the HTTP/1 parser of this connection holds unparsed (a probe of hooked state; None when not applicable)."""
+    try:
+        conn = server.protocol.protocol.connection
+        conn = getattr(conn, "h11_connection", conn)
+        return len(conn._receive_buffer)
+    except Exception:
+        return None
 
 def run_case(case, backend, wall_limit=60):
     import signal
